@@ -194,6 +194,20 @@ def match_finding(findings, contract_name, label, model):
 def apply_mutant(mut):
     """mut = dict(file, func (qualname or None), old, new). Textual replacement inside the function's source
     segment (must match exactly once) -> new file source, or None when stale."""
+    if mut.get("edits"):
+        # several cooperating hunks in one file: apply them one after another on the in-memory source
+        src = repo.read_source(mut["file"])
+        try:
+            for e in mut["edits"]:
+                one = dict(file=mut["file"], func=e.get("func"), old=e["old"], new=e["new"])
+                repo.set_source_override(mut["file"], src)
+                nxt = apply_mutant(one)
+                if nxt is None:
+                    return None
+                src = nxt
+        finally:
+            repo.set_source_override(mut["file"], None)
+        return src
     src = repo.read_source(mut["file"])
     if mut.get("func"):
         try:
@@ -484,7 +498,7 @@ def run_mutants(pid, cds, muts, timeout_ms, jobs, base_results):
     tasks = []
     for m in muts:
         new = apply_mutant(m)
-        name = m.get("name") or f"{m['file']}:{m.get('func')}: {m['old']!r} -> {m['new']!r}"
+        name = m.get("name") or f"{m['file']}:{m.get('func')}: {m.get('old')!r} -> {m.get('new')!r}"
         expect = m.get("expect", "killed")
         if new is None:
             report.append({"name": name, "expect": expect, "outcome": "stale"})
